@@ -24,7 +24,7 @@ tvars == <<l, cur, seen, body, opens, last, phase, sched, k, alg>>
 
 Body(r) == [i \in 1..Len(r.b) |-> [k |-> r.b[i].k, n |-> r.b[i].n]]
 
-TInit == /\ l = 1 /\ cur = [off |-> 0] /\ seen = {}
+TInit == /\ l = 1 /\ cur = [off |-> 0, decoy |-> 0] /\ seen = {}
          /\ body = <<>> /\ opens = <<>> /\ last = "none" /\ phase = "idle"
          /\ sched = <<>> /\ k = 0 /\ alg = AInit
 
@@ -32,9 +32,19 @@ Ev(e) == l <= Len(Rec) /\ Rec[l].ev = e
 Frozen == UNCHANGED <<opens, last>>
 
 TInput == /\ Ev("input") /\ phase \in {"idle"}
-          /\ body' = Body(Rec[l]) /\ cur' = [off |-> Rec[l].off]
+          /\ body' = Body(Rec[l]) /\ cur' = [off |-> Rec[l].off, decoy |-> Rec[l].decoy]
           /\ sched' = Sched(Body(Rec[l])) /\ k' = 1 /\ alg' = AInit /\ seen' = {}
-          /\ phase' = "scan" /\ l' = l + 1 /\ Frozen
+          \* a preceding function `decoy` declares labels of the same names: its events come first
+          /\ phase' = (IF Rec[l].decoy > 0 THEN "pre" ELSE "scan") /\ l' = l + 1 /\ Frozen
+
+\* events of the other function: its labels are in no way related to this body
+TPre == /\ phase = "pre" /\ l <= Len(Rec) /\ Rec[l].ev \in {"lpush", "ldecl", "lpop"}
+        /\ Rec[l].ev = "ldecl" => (Rec[l].line <= cur.off /\ ~Rec[l].clash /\ (0 - Rec[l].line) \notin seen)
+        \* every label of the other function is declared exactly once before its scope is popped
+        /\ Rec[l].ev = "lpop" => Cardinality(seen) = cur.decoy
+        /\ phase' = (IF Rec[l].ev = "lpop" THEN "scan" ELSE "pre")
+        /\ seen' = (IF Rec[l].ev = "ldecl" THEN seen \cup {0 - Rec[l].line} ELSE IF Rec[l].ev = "lpop" THEN {} ELSE seen)
+        /\ l' = l + 1 /\ UNCHANGED <<cur, body, sched, k, alg>> /\ Frozen
 
 Pos == Rec[l].line - cur.off
 \* the next step of the model (Strict) -- or any step with this op and position (rule level)
@@ -89,7 +99,7 @@ TOutcome == /\ Ev("outcome") /\ phase = "scan"
             /\ phase' = "idle" /\ l' = l + 1
             /\ UNCHANGED <<cur, seen, body, sched, k, alg>> /\ Frozen
 
-TNext == TInput \/ TPush \/ TPop \/ TUse \/ TDecl \/ TOutcome
+TNext == TInput \/ TPre \/ TPush \/ TPop \/ TUse \/ TDecl \/ TOutcome
 TSpec == TInit /\ [][TNext]_tvars
 
 \* position reached = diameter - 1 lines consumed
